@@ -71,7 +71,7 @@ void Handler::route(Socket *socket, const QString &path)
             foreach (QString replacement, redirect.first.capturedTexts().mid(1)) {
                 newPath = newPath.arg(replacement);
             }
-            socket->writeRedirect(newPath.toUtf8());
+            socket->writeRedirect(newPath.toUtf8().toPercentEncoding("/:?#[]@!$&'()*+,;=%"));
             return;
         }
     }
